@@ -37,7 +37,16 @@ FAMILIES = {
     "pct": dict(bs="{%", be="%}", vs="{%=", ve="%}", cs="{#", ce="#}"),
     # angle brackets
     "angle": dict(bs="<%", be="%>", vs="<<", ve=">>", cs="<#", ce="#>"),
+    # neighbours of the default: exactly one delimiter differs (environments that differ in a single
+    # lexer setting must not share a lexer)
+    "d-bs": dict(bs="{@", be="%}", vs="{{", ve="}}", cs="{#", ce="#}"),
+    "d-be": dict(bs="{%", be="@}", vs="{{", ve="}}", cs="{#", ce="#}"),
+    "d-vs": dict(bs="{%", be="%}", vs="{$", ve="}}", cs="{#", ce="#}"),
+    "d-ve": dict(bs="{%", be="%}", vs="{{", ve="$}", cs="{#", ce="#}"),
+    "d-cs": dict(bs="{%", be="%}", vs="{{", ve="}}", cs="{*", ce="#}"),
+    "d-ce": dict(bs="{%", be="%}", vs="{{", ve="}}", cs="{#", ce="*}"),
 }
+NEIGHBOURS = ("d-bs", "d-be", "d-vs", "d-ve", "d-cs", "d-ce")
 
 NL = {"n": "\n", "r": "\r", "rn": "\r\n"}
 
